@@ -522,6 +522,21 @@ func (c *Cluster) restart(n *Node) {
 			applied = lo
 		}
 	}
+	// the state machine is recovered at `applied`: forget configuration history beyond it (those entries
+	// will be applied again) and make sure the stored snapshot's configuration is part of the history
+	kept := n.ConfHist[:0]
+	for _, h := range n.ConfHist {
+		if h.Index <= applied {
+			kept = append(kept, h)
+		}
+	}
+	n.ConfHist = kept
+	if snap2, _ := n.St.Snapshot(); snap2.GetMetadata().GetIndex() > 0 {
+		si := snap2.GetMetadata().GetIndex()
+		if len(n.ConfHist) == 0 || n.ConfHist[len(n.ConfHist)-1].Index < si {
+			n.ConfHist = append(n.ConfHist, confAt{Index: si, CS: proto.Clone(snap2.GetMetadata().GetConfState()).(*pb.ConfState)})
+		}
+	}
 	c.trace("restart %d applied=%d", n.ID, applied)
 	c.Stats["restart"]++
 	n.Panic = ""
